@@ -159,6 +159,13 @@ type harness struct {
 	M     *Daemon
 	fatal string
 	mu    sync.Mutex
+
+	signers     []*signer
+	pubF, privF string
+	dir         string
+	mkDaemon    func(string) *Daemon
+	vListen     int
+	otherF      string
 }
 
 func freePort() int {
@@ -241,6 +248,9 @@ func setup(c *Ctx, im *Impl, cf *CaseFile) *harness {
     id: c15m
     datadir: %s
 - log-level: info
+- work-signing:
+    privatekey: %s
+    tokenexpiration: 30m
 - control-service:
     service: control
     filename: %s
@@ -248,14 +258,16 @@ func setup(c *Ctx, im *Impl, cf *CaseFile) *harness {
     address: 127.0.0.1:%d
 - tcp-peer:
     address: 127.0.0.1:%d
-`, M.DataDir(), M.Sock, vListen, nListen)
+`, M.DataDir(), privF, M.Sock, vListen, nListen)
 	Must(V.d.Start())
 	Must(N.d.Start())
 	Must(M.Start())
 	V.tokens = makeTokens("c15v", key, other)
 	N.tokens = makeTokens("c15n", key, other)
 	V.gen, N.gen = newTokenGen("c15v", key, other), newTokenGen("c15n", key, other)
-	h := &harness{c: c, im: im, cf: cf, V: V, N: N, M: M}
+	otherF := filepath.Join(dir, "other.key")
+	Must(certificates.SaveToPEMFile(otherF, []interface{}{other}, osw))
+	h := &harness{c: c, im: im, cf: cf, V: V, N: N, M: M, pubF: pubF, privF: privF, dir: dir, mkDaemon: mk, vListen: vListen, otherF: otherF}
 	// wait for the mesh routes
 	deadline := time.Now().Add(15 * time.Second)
 	for _, target := range []string{"c15v", "c15n"} {
@@ -278,6 +290,11 @@ func (h *harness) teardown() {
 	h.V.d.Kill()
 	h.N.d.Kill()
 	h.M.Kill()
+	for _, s := range h.signers {
+		if s.d != h.M {
+			s.d.Kill()
+		}
+	}
 	killTree(dir)
 	_ = os.RemoveAll(dir)
 }
@@ -982,7 +999,7 @@ func runC15(c *Ctx) {
 	for i, d := range singlesAndPairs() {
 		genCase(h.V, i, d)
 	}
-	nRandTok := 40
+	nRandTok := 20
 	if c.Thorough() {
 		nRandTok = 1500
 	}
@@ -996,6 +1013,16 @@ func runC15(c *Ctx) {
 	// work type NAMES: spellings around every registered type (and around "remote"), JSON and
 	// plain-text submit, this node and another node, without / with a valid / with a bad token
 	h.spellings(c.Thorough(), tokByName)
+	// the signing side end to end, the key file at verification time, configurations that must not start
+	phase := func(name string, f func()) {
+		t0 := time.Now()
+		f()
+		im.Extra["phase_ms_"+name] = time.Since(t0).Milliseconds()
+	}
+	phase("start-signers", func() { h.startSigners(h.dir, h.privF, h.otherF, h.vListen, h.mkDaemon) })
+	phase("signed-remote", h.signedRemote)
+	phase("broken-key-file", func() { h.brokenKeyFile(tokByName) })
+	phase("bad-configs", func() { h.badConfigs(h.dir, h.mkDaemon) })
 	// the rest of the product
 	if c.Thorough() {
 		for _, n := range []*node{h.V, h.N} {
@@ -1010,7 +1037,7 @@ func runC15(c *Ctx) {
 			}
 		}
 	} else {
-		for i := 0; i < 80 && h.fatal == ""; i++ {
+		for i := 0; i < 40 && h.fatal == ""; i++ {
 			n := h.V
 			if r.Chance(20) {
 				n = h.N
